@@ -49,7 +49,24 @@ class QueryGen:
         self.max_depth = max_depth
 
     # ---- lexemes
+    _extra_words = None
+
+    @classmethod
+    def extra_words(cls):
+        """directed search: whatever the implementation's `reserved` table holds besides AND / OR / NOT / TO (nothing on
+        the pinned tree) is put into the word pool, so that a change of that table is met by the queries"""
+        if cls._extra_words is None:
+            try:
+                from . import common
+                cls._extra_words = sorted(k for k in common.impl().parser.reserved if k not in ("AND", "OR", "NOT", "TO"))
+            except Exception:
+                cls._extra_words = []
+        return cls._extra_words
+
     def word(self):
+        extra = self.extra_words()
+        if extra and self.r.random() < 0.15:
+            return self.r.choice(extra)
         return self.r.choice(WORDS)
 
     def phrase(self):
